@@ -1051,9 +1051,11 @@ bool IGXMLScanner::normalizeAttValue( const   XMLAttDef* const    attDef
         while ((nextCh = *srcPtr)!=0)
         {
             // Do we have an escaped character ?
+            bool escaped = false;
             if (nextCh == 0xFFFF)
             {
                 nextCh = *++srcPtr;
+                escaped = true;
             }
             else if (nextCh == chOpenAngle) {
                 //  If its not escaped, then make sure its not a < character, which is
@@ -1062,9 +1064,11 @@ bool IGXMLScanner::normalizeAttValue( const   XMLAttDef* const    attDef
                 retVal = false;
             }
 
+            //  XML 1.0, 3.3.3: only #x20 characters are trimmed and collapsed; a
+            //  #x9, #xA or #xD that was written as a character reference is kept.
             if (curState == InWhitespace)
             {
-                if (!fReaderMgr.getCurrentReader()->isWhitespace(nextCh))
+                if ((escaped && nextCh != chSpace) || !fReaderMgr.getCurrentReader()->isWhitespace(nextCh))
                 {
                     if (firstNonWS)
                         toFill.append(chSpace);
@@ -1079,7 +1083,8 @@ bool IGXMLScanner::normalizeAttValue( const   XMLAttDef* const    attDef
             }
             else if (curState == InContent)
             {
-                if (fReaderMgr.getCurrentReader()->isWhitespace(nextCh))
+                if ((nextCh == chSpace) ||
+                    (fReaderMgr.getCurrentReader()->isWhitespace(nextCh) && !escaped))
                 {
                     curState = InWhitespace;
                     srcPtr++;
